@@ -31,9 +31,12 @@ FAMILIES = {
     "G1": (4, 120, 4, 260, 5),
     "TRI": (2, 120, 4, 260, 5),
     "ANC2": (1, 120, 4, 260, 5),
+    "ANC3": (1, 120, 4, 260, 5),
 }
+# families that only the checks naming them explicitly enumerate
+OPT_IN_FAMILIES = {"ANC3"}
 # families defined outside spec/Universe.tla (added after the witness lists of the older families were complete)
-FAMILY_MODULE = {"ANC2": "MC_SearchX"}
+FAMILY_MODULE = {"ANC2": "MC_SearchX", "ANC3": "MC_SearchX"}
 UNIVERSE_SHARDS = 4
 # families whose universe is wider than the first 4 shards: the literal / reverse-search / class-sequence strategies are
 # selected by small differences between patterns (a self-overlapping suffix, a shared first byte), so a sample is not enough
@@ -55,6 +58,8 @@ def search_jobs(tier, families=None, with_at=False, budget_scale=1.0):
     jobs = []
     for fam, (nsh, qb, ql, tb, tl) in FAMILIES.items():
         if families and fam not in families:
+            continue
+        if not families and fam in OPT_IN_FAMILIES:
             continue
         u = min(nsh, UNIVERSE_SHARDS_OF.get(fam, UNIVERSE_SHARDS))
         if tier == "quick":
@@ -95,11 +100,12 @@ def run_search_family(prop, tier, props_arg, level="model_checking", families=No
                     return (fam, consts, r, None, None)
                 rp = os.path.join(work, f"rep_{i}.json")
                 fp = os.path.join(work, f"fail_{i}.ndjson")
+                xa = (extra_args or []) if sub == subcmd else []      # the extra arguments belong to the check's own driver
                 cmd = [vh, sub, "-in", out, "-props", props_arg, "-report", rp, "-fail", fp] + \
-                      [a.replace("{i}", str(i)).replace("{work}", work) for a in (extra_args or []) if a != "-corpus-first"] + \
-                      (["-corpus"] if "-corpus-first" in (extra_args or []) and i == 0 else [])
+                      [a.replace("{i}", str(i)).replace("{work}", work) for a in xa if a != "-corpus-first"] + \
+                      (["-corpus"] if "-corpus-first" in xa and i == 0 else [])
                 p = subprocess.run(cmd, capture_output=True, text=True, timeout=3000)
-                if per_output and p.returncode == 0:
+                if per_output and p.returncode == 0 and sub == subcmd:
                     try:
                         stage_results.append(per_output(vh, work, out, i, fam))
                     except Machinery as e:
@@ -415,16 +421,18 @@ def c_search(prop, tier):
     deep = tier != "quick" and prop in ("C01", "C02", "C03")
     long_args = ["-long", "4300" if deep else "700", "-ladder", "q" if tier == "quick" else "t"]
     if prop == "C04":
+        # + the families of the reverse-search driver models (C19): the enumeration derived from the per-offset reference column
         return run_search_family(prop, tier, prop, stages=iter_model_stages(tier), per_output=iter_trace_stage(prop),
-                                 budget_scale=0.6 if tier == "quick" else 1.0, extra_args=long_args)
+                                 budget_scale=0.6 if tier == "quick" else 1.0, extra_args=long_args, extra_jobs=revsuffix_jobs(tier))
     if prop == "C10":
         return run_search_family(prop, tier, prop, stages=[object_stage(prop, tier)], budget_scale=0.6 if tier == "quick" else 1.0,
                                  per_output=pike_stage(prop, tier, 1), extra_args=long_args)
     if prop in ("C02", "C03"):
-        return run_search_family(prop, tier, prop, stages=[refequiv_stage(tier)], per_output=pike_stage(prop, tier), extra_args=long_args)
+        return run_search_family(prop, tier, prop, stages=[refequiv_stage(tier)], per_output=pike_stage(prop, tier), extra_args=long_args,
+                                 extra_jobs=revsuffix_jobs(tier) if prop == "C02" else None)
     if prop == "C11":   # ~40 relations per pair: a smaller haystack budget keeps the quick tier near two minutes
         return run_search_family(prop, tier, prop, budget_scale=0.6 if tier == "quick" else 1.0, extra_args=long_args)
-    return run_search_family(prop, tier, prop, extra_args=long_args)
+    return run_search_family(prop, tier, prop, extra_args=long_args, extra_jobs=revsuffix_jobs(tier) if prop == "C01" else None)
 
 
 def c08(prop, tier):
@@ -613,7 +621,7 @@ def revsuffix_stages(tier):
 def c19(prop, tier):
     return run_search_family(prop, tier, prop, subcmd="fastpaths", with_at=True, budget_scale=0.6 if tier == "quick" else 0.7,
                              extra_jobs=revsuffix_jobs(tier), stages=revsuffix_stages(tier),
-                             families=["REV", "ANC", "ANC2", "CC", "DIG", "LIT", "G2a", "G2m", "U8", "G2u", "TRI", "G1", "BIG"],
+                             families=["REV", "ANC", "ANC2", "ANC3", "CC", "DIG", "LIT", "G2a", "G2m", "U8", "G2u", "TRI", "G1", "BIG"],
                              rule="TLC enumerates the families designed around the strategy selector (REV, ANC, CC, DIG, LIT) and generic shards, "
                                   "x haystacks x every start offset; patterns whose selected strategy is a special-purpose searcher are checked end to end "
                                   "through Engine.IsMatch/FindIndicesAt/FindAt/FindSubmatchAt, and every public searcher whose own applicability predicate "
